@@ -44,7 +44,7 @@ theorem C06_eval_call (p : Program) (fr : Frame) (fuel : Nat) (i : Nat) (d : FnD
     (hd : p.conv.customs[i]? = some d) (hc : p.sem.isCtor d.name = false) :
     evalConv p (fuel+1) fr (.call (.custom i) [.source] false w) src old n = .ok (.tok d.name [src], n) := by
   unfold evalConv
-  simp [List.filterMapM, List.filterMapM.loop, bind, StateT.bind, pure, StateT.pure, hd, hc]
+  simp [argOf, List.filterMapM, List.filterMapM.loop, bind, StateT.bind, pure, StateT.pure, hd, hc]
 
 /-- **C06_context_pass**: a context argument is the caller's argument of that type, unchanged -/
 theorem C06_context_pass (p : Program) (fr : Frame) (fuel : Nat) (i : Nat) (d : FnDef) (w : Wrap) (src old cv : Val) (ct : Ty) (n : Nat)
@@ -53,7 +53,7 @@ theorem C06_context_pass (p : Program) (fr : Frame) (fuel : Nat) (i : Nat) (d : 
     evalConv p (fuel+1) fr (.call (.custom i) [.ctx ct, .source] false w) src old n = .ok (.tok d.name [cv, src], n) := by
   constructor <;>
   · unfold evalConv
-    simp [List.filterMapM, List.filterMapM.loop, bind, StateT.bind, pure, StateT.pure, hd, hc, hctx]
+    simp [argOf, List.filterMapM, List.filterMapM.loop, bind, StateT.bind, pure, StateT.pure, hd, hc, hctx]
 
 /-- a context argument is never used as the conversion source: `source` is the only argument that carries it -/
 theorem C06_context_not_source (p : Program) (fr : Frame) (fuel : Nat) (i : Nat) (d : FnDef) (w : Wrap) (src src' old cv : Val) (ct : Ty) (n : Nat)
@@ -61,7 +61,7 @@ theorem C06_context_not_source (p : Program) (fr : Frame) (fuel : Nat) (i : Nat)
     evalConv p (fuel+1) fr (.call (.custom i) [.ctx ct] false w) src old n =
     evalConv p (fuel+1) fr (.call (.custom i) [.ctx ct] false w) src' old n := by
   unfold evalConv
-  simp [List.filterMapM, List.filterMapM.loop, bind, StateT.bind, pure, StateT.pure, hd, hc, hctx]
+  simp [argOf, List.filterMapM, List.filterMapM.loop, bind, StateT.bind, pure, StateT.pure, hd, hc, hctx]
 
 /-! ### which functions an `extend` setting selects (pkgload.GetMatching) -/
 
